@@ -74,7 +74,7 @@ PLAN_IRGEN = {
                  (2, 1, ALPHA_5, "all", CONDS[:2], 4),
                  (2, 2, ALPHA_8, "dag", CONDS[:1], 3),
                  (3, 1, ALPHA_8, "dag", CONDS, 3),
-                 (3, 2, ALPHA_4, "dag", CONDS[:2], 3)],
+                 (3, 2, ALPHA_4, "dag", CONDS[:1], 3)],
 }
 PLAN_LIFTED = {
     "quick": ["x86_16", "x86_32", "x86_64", "arml", "armtl", "aarch64l", "mips32l", "ppc32b", "msp430", "mepl"],
@@ -634,6 +634,8 @@ def select_vectors(name, one_per_shape):
     cur = g.curated(name)
     if not one_per_shape:
         return list(range(len(cur)))
+    if name in _select:
+        return _select[name]
     lift_env(name)
     seen = set()
     out = []
@@ -648,14 +650,20 @@ def select_vectors(name, one_per_shape):
         if key not in seen:
             seen.add(key)
             out.append(i)
+    _select[name] = out
     return out
+
+
+_select = {}
 
 
 def _shard_lifted(args):
     from mc import insngen as g
-    name, idxs = args
+    name, one_per_shape, part, nparts = args
     cur = g.curated(name)
-    stats = {}
+    sel = select_vectors(name, one_per_shape)
+    idxs = sel[part::nparts]
+    stats = {"vectors_of_target": len(cur) if part == 0 else 0}
     best = {}
     sample = None
     for b in [cur[i] for i in idxs]:
@@ -696,14 +704,18 @@ def run(ctx):
         for lo in range(0, total, step):
             shards.append(("irgen", tier, pi, lo, min(total, lo + step)))
     targets = PLAN_LIFTED[tier] or list(g.LIFT_TARGETS)
-    nvec = {}
+    # the parent process stays small (no miasm import before the pool forks): a shard is (target, part k of n) and the
+    # worker derives the tier's vector selection itself
     for name in targets:
-        idxs = select_vectors(name, tier == "quick")
-        nvec[name] = [len(idxs), len(g.curated(name))]
-        step = 100
-        for lo in range(0, len(idxs), step):
-            shards.append(("lifted", name, idxs[lo:lo + step]))
-    res = ctx.pmap(_shard, shards)
+        n = len(g.curated(name))
+        nparts = max(1, n // (250 if tier == "quick" else 120))
+        for k in range(nparts):
+            shards.append(("lifted", name, False, k, nparts))
+    if ctx.quick:
+        # ~25 s of work: one warm process beats a pool of 16 cold ones (imports, fork) on a loaded machine
+        res = [_shard(s) for s in shards]
+    else:
+        res = ctx.pmap(_shard, shards)
     fam = {}
     best = {}
     samples = []
@@ -714,8 +726,8 @@ def run(ctx):
                 best[sig][0] += n
             else:
                 best[sig] = [n, v]
-        if sample and len(samples) < 40:
-            samples.append(sample)
+        if sample and sum(1 for f, _ in samples if f == family) < (4 if family == "irgen" else 1):
+            samples.append((family, sample))
     for sig in sorted(best):
         n, v = best[sig]
         v = dict(v)
@@ -724,13 +736,7 @@ def run(ctx):
     tot = {}
     for f, st in fam.items():
         _merge(tot, dict((k, v) for k, v in st.items() if not isinstance(v, dict)))
-    seen_f = set()
-    smp = []
-    for s in samples:
-        f = s.split(" ")[0]
-        if f not in seen_f or len(smp) < 4:
-            seen_f.add(f)
-            smp.append(s)
+    smp = [s for _, s in samples]
     cov = {
         "evaluations": tot.get("states_compared", 0),
         "programs": tot.get("programs", 0) + tot.get("lifted", 0),
@@ -748,13 +754,14 @@ def run(ctx):
         "violating_programs": sum(n for n, _ in best.values()),
         "violation_signatures": len(best),
         "per_family": fam,
-        "samples": smp[:8],
+        "samples": smp[:16],
         "exhaustive": True,
         "bounds": {"irgen_plan(blocks,max_assignblocks,alphabet,shapes,conditions,fuel)": [list(e) for e in PLAN_IRGEN[tier]],
                    "lifted_targets": targets,
-                   "lifted_vectors": ("first curated vector of every (mnemonic, operand shape) per target" if tier == "quick"
-                                      else "every curated vector of every target"),
-                   "vectors_selected_of_curated": nvec, "lift_address": LIFT_ADDR, "lift_fuel_blocks": LIFT_FUEL,
+                   "lifted_vectors": "every curated vector of every listed target",
+                   "vectors_selected_of_curated": dict((f[7:], [st.get("vectors", 0), st.get("vectors_of_target", 0)])
+                                                       for f, st in fam.items() if f.startswith("lifted:")),
+                   "lift_address": LIFT_ADDR, "lift_fuel_blocks": LIFT_FUEL,
                    "register_levels": "0,1,2^(w-1)-1,2^(w-1),2^w-1 / pointer identifiers: bases 2^16 apart (5 levels)",
                    "state_lattice": "all combinations for <= 3 live identifiers, pairwise covering array beyond",
                    "memory_byte_alphabet": list(BYTES), "memory_variants": 2},
